@@ -7,8 +7,10 @@ two-line wrapper that #includes /repo's fff_gen_stats.c is compiled per run):
   permutation   fff_permutation: all magics for n<=6 (7 thorough) + periodic/huge magics + larger n
   combinations  _combinations for all k<=n<=70 (wrap region included) and k>n;
                 fff_combination for all (n,k), n<=10, all magics (+2 beyond), random up to n=58
-  signs         fff_onesample_permute_signs: all 2^n magics n<=10; non-integer,
-                negative, >=2^31, >=2^32 magics (finding: int cast overflow)
+  signs         fff_onesample_permute_signs: all 2^n magics n<=10; n = 20/31/32 random;
+                every n in 33..53 with boundary + random magics >= 2^32 (the int-cast
+                overflow repaired by 6262c59 is reported if it returns); magics >= 2^53,
+                negative, non-integer and uniform float magics
   twosample     fff_twosample_permutation (count mode + every magic) and
                 fff_twosample_apply_permutation for n1+n2<=8 (10 thorough)
   stats         fff_onesample_stat_{new,eval} / fff_twosample_stat_{new,eval}:
@@ -291,9 +293,13 @@ def c_signs(L, xs, magic):
 
 def sec_signs(ck, L):
     terms, metas = [], []
+    TWO32, TWO53 = 2 ** 32, 2 ** 53
 
     def one(n, magic, bucket, check_bits):
+        """magic: int (exact as a double: |magic| <= 2^53 or explicitly a multiple of a large power of 2) or float."""
         xs = [float(i + 1) for i in range(n)]
+        if isinstance(magic, int):
+            assert int(float(magic)) == magic, magic        # exactly representable
         out = c_signs(L, xs, magic)
         ck.count(("sign", n, magic), bucket=bucket)
         if any(o != v and o != -v for o, v in zip(out, xs)):
@@ -301,10 +307,17 @@ def sec_signs(ck, L):
                     {"n": n, "magic": magic, "out": out})
         flags = [o == -v for o, v in zip(out, xs)]
         if check_bits:
-            bits = [bool((int(magic) >> i) & 1) for i in range(n)]
+            bits = [bool((int(magic) >> i) & 1) for i in range(n)]       # two's complement digits for negative magics
             if flags != bits:
-                ck.fail("permute_signs/not-binary-digits", "permute_signs(n=%d, magic=%d) flips %s, binary digits are %s" % (n, magic, flags, bits),
-                        {"n": n, "magic": magic, "flips": flags})
+                if abs(int(magic)) >= TWO32:
+                    # the defect repaired by 6262c59 (FFF_FLOOR's int cast) - must be reported if it returns
+                    ck.fail("permute_signs/magic>=2^32-int-cast-overflow",
+                            "fff_onesample_permute_signs(n=%d, magic=%d) flips %s instead of the binary digits %s: "
+                            "sign flips are not a bijection on [0,2^n) for n >= 33" % (n, magic, flags, bits),
+                            {"n": n, "magic": magic, "flips": flags, "binary_digits": bits})
+                else:
+                    ck.fail("permute_signs/not-binary-digits", "permute_signs(n=%d, magic=%d) flips %s, binary digits are %s" % (n, magic, flags, bits),
+                            {"n": n, "magic": magic, "flips": flags})
         terms.append("bl_eqb (sign_flags %s %s) [%s]" % (cnat(n), cq(float(magic)), "; ".join(cbool(f) for f in flags)))
         metas.append(("sign", n, magic, flags))
         return tuple(flags)
@@ -321,34 +334,41 @@ def sec_signs(ck, L):
             ck.fail("permute_signs/not-surjective", "n=%d: %d of %d patterns" % (n, len(seen), 2 ** n), {"n": n})
     rng = ck.rng("signs")
     for n in (20, 31, 32):
-        for _ in range(ck.n(40, 200)):
+        for _ in range(ck.n(30, 150)):
             m = int(rng.integers(0, 2 ** n))
             one(n, m, "signs:random-n%d" % n, True)
         one(n, 2 ** n - 1, "signs:random-n%d" % n, True)
         one(n, 2 ** (n - 1), "signs:random-n%d" % n, True)
-    for magic in [0.5, 2.5, 7.25, 1023.75, -1.0, -2.5, -6.0]:
-        one(8, magic, "signs:non-integer-or-negative", False)
-    # magics at and above 2^32 (n >= 33): FINDING - the (int) cast in FFF_FLOOR overflows
-    big = {}
-    first_bad = None
-    for n in (33, 36, 40):
-        for m in [2 ** 32 - 1, 2 ** 32, 2 ** 32 + 2, 2 ** 32 + 5, 2 ** 33 - 1, 2 ** (n - 1) + 12, 2 ** n - 1]:
-            if m >= 2 ** n:
+    # n = 33..53: every magic of [0,2^n) is an exact double; boundary magics for every n, a full low-bit block
+    # on top of a high offset, and random magics >= 2^32; sampled magics must give pairwise distinct patterns
+    for n in range(33, 54):
+        seen = {}
+        ms = [TWO32 - 1, TWO32, TWO32 + 2, TWO32 + 5, 2 ** 33 - 1, 2 ** (n - 1), 2 ** (n - 1) + 12, 2 ** n - 1, 2 ** n - 2]
+        ms += [int(rng.integers(TWO32, 2 ** n)) for _ in range(ck.n(12, 60))]
+        if n in (33, 40, 53):
+            hi = int(rng.integers(1, 2 ** (n - 32))) << 32                    # exhaustive in the 6 low bits above a >=2^32 offset
+            ms += [hi + lo for lo in range(64)]
+        for m in ms:
+            if not (0 <= m < 2 ** n):
                 continue
-            f = one(n, m, "signs:magic>=2^32", False)
-            bits = tuple(bool((m >> i) & 1) for i in range(n))
-            if f != bits and first_bad is None:
-                first_bad = (n, m, list(f), list(bits))
-            key = (n, f)
-            if key in big and big[key] != m and first_bad is not None and len(first_bad) == 4:
-                first_bad = first_bad + (big[key],)
-            big.setdefault(key, m)
-    if first_bad is not None:
-        ck.fail("permute_signs/magic>=2^32-int-cast-overflow",
-                "fff_onesample_permute_signs(n=%d, magic=%d) flips %s instead of the binary digits; distinct magics >= 2^32 collide "
-                "(FFF_FLOOR casts m/2 to int): sign flips are not a bijection on [0,2^n) for n >= 33" % (first_bad[0], first_bad[1], first_bad[2]),
-                {"n": first_bad[0], "magic": first_bad[1], "flips": first_bad[2], "binary_digits": first_bad[3],
-                 "colliding_magic": first_bad[4] if len(first_bad) > 4 else None})
+            f = one(n, m, "signs:n33..53-magic>=2^32" if m >= TWO32 else "signs:n33..53", True)
+            if f in seen and seen[f] != m:
+                ck.fail("permute_signs/magic>=2^32-int-cast-overflow",
+                        "fff_onesample_permute_signs(n=%d): distinct magics %d and %d give the same sign pattern" % (n, seen[f], m),
+                        {"n": n, "magic": m, "colliding_magic": seen[f]})
+            seen.setdefault(f, m)
+    # beyond the bijection range: even integers >= 2^53 (exact doubles), n up to 64
+    for n, m in [(56, 2 ** 53), (56, 2 ** 53 + 2), (60, 2 ** 59 + 2 ** 20), (64, 2 ** 63), (64, 2 ** 63 + 2 ** 11), (64, 2 ** 64 - 2 ** 11)]:
+        one(n, m, "signs:magic>=2^53", True)
+    # negative integers: two's complement digits; non-integer magics (what np.random.uniform feeds): model only
+    for magic in [-1, -2, -6, -255, -(2 ** 33) - 3]:
+        one(36, magic, "signs:negative-integer", True)
+    for magic in [0.5, 2.5, 7.25, 1023.75, -1.0, -2.5, -6.0, 0.1, 3.3, 2.0 ** 40 + 0.5, 2.0 ** 33 + 1.25, 1e-3, -7.75]:
+        one(8 if abs(magic) < 1e6 else 44, magic, "signs:non-integer-or-negative", False)
+    for _ in range(ck.n(40, 200)):
+        n = int(rng.integers(2, 50))
+        magic = float(rng.uniform(1.0, 2.0 ** n))                            # permutation_test.calibrate: np.random.uniform(max_nperms, size=nperms)
+        one(n, magic, "signs:uniform-float-magic", False)
     ck.sample({"call": "permute_signs(x=[1..4], magic=5)", "out": c_signs(L, [1, 2, 3, 4], 5)})
     run_terms(ck, "permute_signs", terms, metas, lambda t: "sign_flags %s %s" % (cnat(t[1]), cq(float(t[2]))))
     ck.section("signs", model_cases=len(terms))
@@ -697,8 +717,8 @@ def run(ck):
     ck.coq_build()
     ck.overlay(cstat=True)
     ck.trust.append("C17: doubles in fff_twosample_permutation / permute_signs are modelled by exact N / Q arithmetic (exact while "
-                    "intermediates < 2^53; halving and (int) conversion are exact); (int) cast out of range modelled with the x86-64 result "
-                    "(undefined in ISO C); sqrt is an abstract parameter of os_student/ts_student and compared with tolerance 1e-12")
+                    "intermediates < 2^53); permute_signs: m/2, floor and the subtraction are exact for every finite non-subnormal double, so Q + Qfloor "
+                    "is an exact model; inf/nan/subnormal magics not modelled; sqrt is an abstract parameter of os_student/ts_student and compared with tolerance 1e-12")
     ck.trust.append("C17: `_combinations` is static and is observed through a 2-line wrapper that #includes /repo's fff_gen_stats.c; "
                     "nipy.labs.group.{onesample,twosample} glue is the installed (stale) build - only permutation_test.py's Python is current")
     L = load_c(ck)
